@@ -1,5 +1,5 @@
 use crate::sparse::{Node, SparseMatrix};
-use std::collections::VecDeque;
+use std::collections::{HashMap, VecDeque};
 
 #[derive(Debug, Clone, Eq, PartialEq)]
 struct PathHead {
@@ -96,47 +96,38 @@ impl BFSContext<'_> {
     }
 
     pub fn local_girth(mut self, max: usize) -> Option<usize> {
-        // Branch (neighbour of the root) through which each visited node was
-        // first reached. Two paths from the root that meet only form a cycle
-        // through the root if they leave the root through different branches.
-        let mut row_branch = vec![0usize; self.h.num_rows()];
-        let mut col_branch = vec![0usize; self.h.num_cols()];
-        let mut best: Option<usize> = None;
+        // Branch of the BFS tree (see PathHead) of each visited node. Two paths
+        // from the root that meet only form a cycle through the root if they
+        // leave the root through different branches. The BFS visits nodes in
+        // order of distance, so the first such meeting closes a shortest cycle
+        // through the root.
+        let mut branches: HashMap<(bool, usize), usize> = HashMap::new();
         while let Some(head) = self.to_visit.pop_front() {
-            if let Some(b) = best {
-                // Cycles found from this head on have length at least
-                // 2 * head.path_length.
-                if 2 * head.path_length >= b {
-                    break;
-                }
-            }
             for (k, mut next_head) in head.iter(self.h).enumerate() {
                 if head.parent.is_none() {
                     // each neighbour of the root starts its own branch
                     next_head.branch = k + 1;
                 }
-                let next_branch = match next_head.node {
-                    Node::Row(n) => &mut row_branch[n],
-                    Node::Col(n) => &mut col_branch[n],
+                let key = match next_head.node {
+                    Node::Row(n) => (true, n),
+                    Node::Col(n) => (false, n),
                 };
                 let next_dist = self.results.get_node_mut(next_head.node);
                 if let Some(dist) = *next_dist {
-                    if *next_branch != next_head.branch {
+                    if branches.get(&key) != Some(&next_head.branch) {
                         let total = dist + next_head.path_length;
-                        if best.is_none_or(|b| total < b) {
-                            best = Some(total);
-                        }
+                        return if total <= max { Some(total) } else { None };
                     }
                 } else {
                     *next_dist = Some(next_head.path_length);
-                    *next_branch = next_head.branch;
+                    branches.insert(key, next_head.branch);
                     if next_head.path_length < max {
                         self.to_visit.push_back(next_head);
                     }
                 }
             }
         }
-        best.filter(|&b| b <= max)
+        None
     }
 }
 
